@@ -29,7 +29,13 @@ static AutDescription genDesc(vh::Rng& g, int maxRank, bool hostile)
 {
 	AutDescription d; d.name = hostile ? hostileName(g) : "A";
 	int ns = g.range(1, 4); std::vector<std::pair<std::string, int>> syms;
-	for (int i = 0; i < ns; ++i) { std::string n = hostile ? hostileName(g) : "s" + std::to_string(i); int rk = g.range(0, maxRank); bool dup = false; for (auto& s : syms) if (s.first == n) dup = true; if (dup) continue; syms.push_back({n, rk}); d.symbols.insert(syms.back()); }
+	for (int i = 0; i < ns; ++i)
+	{
+		std::string n = hostile ? hostileName(g) : "s" + std::to_string(i); int rk = g.range(0, maxRank); bool dup = false; for (auto& s : syms) if (s.first == n) dup = true; if (dup) continue;
+		syms.push_back({n, rk});
+		// the symbols section may declare a symbol without a rank (the parser records rank -1 for "Ops a f:2"), or not at all
+		int decl = static_cast<int>(g.below(8)); if (decl == 0) d.symbols.insert(std::make_pair(n, -1)); else if (decl != 1) d.symbols.insert(syms.back());
+	}
 	int nq = g.range(0, 4); std::vector<std::string> sts;
 	for (int i = 0; i < nq; ++i) { sts.push_back(hostile ? hostileName(g) : "q" + std::to_string(i)); d.states.insert(sts.back()); }
 	if (sts.empty()) return d;        // empty sections
@@ -113,6 +119,19 @@ static void caseRoundTrip(vh::Rng& g)
 		if (!(e == d)) R->count("info:description-not-fully-equal(symbols/states/name)");
 		std::string t2 = nullaryWithParens(txt, g);
 		if (t2 != txt) { R->count("nullary-with-parentheses"); AutDescription f = parser().ParseString(t2); if (!(f.transitions == d.transitions) || !(f.finalStates == d.finalStates)) R->violation("C13/description/nullary-parentheses-form-differs", t2); }
+		{	// second generation: what the parser produced is itself a description; its serialisation must parse back to it
+			std::string t4 = txt; size_t op = t4.find("Ops"); size_t eol = t4.find('\n');
+			if (op == 0 && eol != std::string::npos)
+			{	// drop the rank of some Ops tokens ("Ops a f:2" is legal)
+				std::string opsLine = t4.substr(0, eol), rebuilt; std::istringstream ls(opsLine); std::string w;
+				while (ls >> w) { size_t c = w.rfind(':'); if (c != std::string::npos && c > 0 && g.chance(1, 3)) w = w.substr(0, c); rebuilt += (rebuilt.empty() ? "" : " ") + w; }
+				t4 = rebuilt + t4.substr(eol);
+			}
+			AutDescription d1 = parser().ParseString(t4); R->count("second-generation-roundtrips");
+			std::string t5 = serializer().Serialize(d1); R->desc(t5);
+			AutDescription d2 = parser().ParseString(t5);
+			if (!(d2.transitions == d1.transitions) || !(d2.finalStates == d1.finalStates)) R->violation("C13/description/second-generation-differs", t4 + "---\n" + t5);
+		}
 		for (int v = 0; v < 2; ++v)
 		{	// layout variants of the same text must parse to the same description
 			std::string t3 = relayout(txt, g); R->count("layout-variants"); R->desc(t3);
